@@ -524,7 +524,13 @@ func (c *Ctx) RapidSeed(leg string, round int) uint64 {
 // shallow defect does not hide the ones behind it.
 func (c *Ctx) Rapid(leg string, checks int, prop func(t *rapid.T)) {
 	c.curLeg = leg
-	defer func() { c.curLeg = "" }()
+	t0 := time.Now()
+	defer func() {
+		c.curLeg = ""
+		c.mu.Lock()
+		c.rep.Extra["leg_wall_s:"+leg] = time.Since(t0).Seconds()
+		c.mu.Unlock()
+	}()
 	if checks <= 0 {
 		return
 	}
@@ -611,7 +617,13 @@ func trunc(s string, n int) string {
 // Leg marks a non-rapid leg (enumeration); counters are attributed to it.
 func (c *Ctx) Leg(leg string, f func()) {
 	c.curLeg = leg
-	defer func() { c.curLeg = "" }()
+	t0 := time.Now()
+	defer func() {
+		c.curLeg = ""
+		c.mu.Lock()
+		c.rep.Extra["leg_wall_s:"+leg] = time.Since(t0).Seconds()
+		c.mu.Unlock()
+	}()
 	f()
 }
 
